@@ -68,7 +68,10 @@ def main():
         }],
         "checks": checks,
         "not_applicable": na,
-        "notes": "exit codes: 0 held / 1 violation (VIOLATION line) / 2 undecided / 3 checker error. known findings: /verif/known_findings.json",
+        "notes": "exit codes: 0 held / 1 violation (VIOLATION line) / 2 undecided / 3 checker error. known findings (never written at run "
+                 "time): /verif/known_findings.json + /verif/known_findings.d/*.json, readable summary with the repaired defects in "
+                 "/verif/FINDINGS.md; seeded changes and their verdicts: /verif/seeded/ (TABLE.md); behaviour-preserving refactorings "
+                 "used as false-alarm test: /verif/refactor/ (RESULTS.json); independent violation reports and their triage: /verif/hunt/",
     }
     with open(os.path.join(ROOT, "MANIFEST.json"), "w") as f:
         json.dump(man, f, indent=1)
